@@ -7,7 +7,8 @@ from synfam import formulas_of, rand_formula, tokenise
 
 LANGN = ['PL', 'CTL', 'LTL', 'CTLS']
 VOCAB = [['w', x] for x in ('p', 'q', 'true', 'false', 'not', 'or', 'and', 'A', 'E', 'X', 'F', 'G', 'U', 'R', 'r')] + \
-        [['s', x] for x in ('~', '|', '&', '-->')] + [['(', '('], [')', ')'], ['e', 'a b'], ['bad', '#'], ['bad', '-'], ['bad', '$']]
+        [['s', x] for x in ('~', '|', '&', '-->')] + [['(', '('], [')', ')'], ['e', 'a b'], ['bad', '#'], ['bad', '-'], ['bad', '$']] + \
+        [['e', x] for x in ('C:\\xerox', '\\Users\\bob', 'req\\u12', 'say \\"hi\\"', 'a\\\\b', 'tab\\t', '\\N{x', '', 'A', 'p or q')]
 
 
 def mutate(rnd, toks):
